@@ -145,6 +145,19 @@ func runExtWorld(prefix string, w *World) (*core.Failure, string) {
 	// does the model expect a refusal?
 	refuse := ""
 	for i := range w.Ents {
+		// an entry written as "kind:" with nothing behind it has no content at all: whatever refers to it cannot be generated
+		if p := w.Prof(w.Ents[i].Profile); p != nil {
+			for _, x := range p.Extensions {
+				if x.NullBody {
+					refuse = w.Ents[i].EffAlias()
+				}
+			}
+		}
+		for _, x := range w.Ents[i].Extensions {
+			if x.NullBody {
+				refuse = w.Ents[i].EffAlias()
+			}
+		}
 		for _, x := range effectiveExts(w, &w.Ents[i]) {
 			if !x.Defined() {
 				refuse = w.Ents[i].EffAlias()
@@ -255,6 +268,9 @@ func genProfileExts(t *rapid.T, label string, crt []core.Extension, kinds []stri
 			p = genExtension(t, l+"-new", kinds, 64)
 		}
 		p.Optional, p.Override = nil, nil
+		if allowUndefined && !p.Defined() && p.Kind != core.KCUSTOM && rapid.IntRange(0, 3).Draw(t, l+"-nullbody") == 0 {
+			p.NullBody = true // "- keyUsage:" instead of "- keyUsage: {}"
+		}
 		switch rapid.IntRange(0, 3).Draw(t, l+"-optional") {
 		case 0:
 			p.Optional = core.BoolP(true)
